@@ -13,63 +13,78 @@ Definition FAITHFUL : bool := false.
 Definition canon (p : list stmt) : list citem := canon_of gen_negcmp FAITHFUL p.
 Definition structure (f : list stmt) : list stmt := structure_with gen_negcmp gen_guards gen_pass_order f.
 
-(* no cond chain of p tests a negated count jump *)
-Fixpoint no_cnt_chain_s (s : stmt) : bool :=
-  match s with
-  | SLoop _ b => forallb no_cnt_chain_s b
-  | SChain bs els =>
-      forallb (fun cb => match fst cb with CCnt _ _ _ => false | _ => true end && forallb no_cnt_chain_s (snd cb)) bs
-      && match els with None => true | Some b => forallb no_cnt_chain_s b end
-  | _ => true
-  end.
-Definition no_cnt_chain (p : list stmt) : bool := forallb no_cnt_chain_s p.
-
 (* The full statement: for every flat, well-labelled instruction stream, the reconstructed program
    flattens back to the same canonical stream (same instructions, times, difficulty masks, jump
    targets as (position, time), explicit time arguments), provided no cond chain negates a count jump
-   (that exclusion is the defect C07_count_jump_negation_refuted below). *)
+   (that exclusion is exactly the defect C07_count_jump_negation_refuted below). *)
 Definition C07_full : Prop :=
   forall f, is_flat f = true -> well_labelled f -> no_cnt_chain (structure f) = true ->
   canon (structure f) = canon f.
 
-(* ---- proved: each of loop / break / unused-label pass, over partially structured programs ---- *)
+Theorem C07_structure_canon : C07_full.
+Proof. exact C07_full_proof. Qed.
 
+(* the defect: a forward count jump `if (--x > 0) goto L` becomes `if (--x <= 0) { ... }`, which no format
+   can compile; the canonical stream of the reconstruction differs from the input's *)
+Theorem C07_count_jump_negation_refuted :
+  g_if_cnt gen_guards = false ->     (* holds of the current source; becomes vacuous once fixes/c07-count-jump-negation.diff is applied *)
+  exists f, is_flat f = true /\ well_labelled f /\ canon (structure f) <> canon f.
+Proof. exact count_jump_negation_refuted. Qed.
+
+(* "never moves a label that something else still jumps to": every label still mentioned after the
+   reconstruction denotes the same (position, time) as in the input stream *)
+Theorem C07_referenced_labels_keep_position_and_time :
+  forall f, is_flat f = true -> well_labelled f -> no_cnt_chain (structure f) = true ->
+  forall l, In l (refs (structure f)) -> lookup (lenv st0 (structure f)) l = lookup (lenv st0 f) l.
+Proof. exact referenced_labels_keep_position_and_time. Qed.
+
+(* "never captures a jump with an explicit time argument": the explicit time arguments, instruction by
+   instruction, are those of the input (jumps generated for loops / cond chains / breaks carry none) *)
+Theorem C07_explicit_time_jumps_untouched :
+  forall f, is_flat f = true -> well_labelled f -> no_cnt_chain (structure f) = true ->
+  map explicit_time (canon (structure f)) = map explicit_time (canon f).
+Proof. exact explicit_time_jumps_untouched. Qed.
+
+(* "never alters time labels": every instruction keeps the time the time labels give it *)
+Theorem C07_time_labels_unchanged :
+  forall f, is_flat f = true -> well_labelled f -> no_cnt_chain (structure f) = true ->
+  map item_time (canon (structure f)) = map item_time (canon f).
+Proof. exact time_labels_unchanged. Qed.
+
+(* each pass on its own, over partially structured programs (the loop pass only ever sees flat input) *)
 Theorem C07_loop_pass_preserves : forall f, is_flat f = true -> well_labelled f ->
-  well_labelled (loop_pass gen_guards f) /\ canon (loop_pass gen_guards f) = canon f /\
-  (forall l, In l (refs (loop_pass gen_guards f)) ->
-             lookup (lenv st0 (loop_pass gen_guards f)) l = lookup (lenv st0 f) l).
-Proof. exact (fun f Hf Hw => proj1 (loop_pass_preserves gen_negcmp FAITHFUL gen_guards f gen_guards_essential Hf Hw)). Qed.
+  well_labelled (loop_pass gen_guards f) /\ canon (loop_pass gen_guards f) = canon f.
+Proof. exact loop_pass_gen. Qed.
 
 Theorem C07_break_pass_preserves : forall p, well_labelled p ->
-  well_labelled (break_pass gen_guards p) /\ canon (break_pass gen_guards p) = canon p /\
-  (forall l, In l (refs (break_pass gen_guards p)) ->
-             lookup (lenv st0 (break_pass gen_guards p)) l = lookup (lenv st0 p) l).
-Proof. exact (fun p Hw => break_pass_preserves gen_negcmp FAITHFUL gen_guards p gen_guards_essential Hw). Qed.
+  well_labelled (break_pass gen_guards p) /\ canon (break_pass gen_guards p) = canon p.
+Proof. exact break_pass_gen. Qed.
 
 Theorem C07_unused_labels_pass_preserves : forall p, well_labelled p ->
-  well_labelled (unused_pass p) /\ canon (unused_pass p) = canon p /\
-  (forall l, In l (refs (unused_pass p)) -> lookup (lenv st0 (unused_pass p)) l = lookup (lenv st0 p) l).
-Proof. exact (unused_pass_preserves gen_negcmp FAITHFUL). Qed.
+  well_labelled (unused_pass p) /\ canon (unused_pass p) = canon p.
+Proof. exact unused_pass_gen. Qed.
 
-(* the three composed *)
-Theorem C07_structure_canon_partial : forall f, is_flat f = true -> well_labelled f ->
-  canon (structure_with gen_negcmp gen_guards [PLoop; PBreak; PUnused] f) = canon f.
-Proof. exact (fun f Hf Hw => proj1 (proj2 (structure_canon_partial gen_negcmp FAITHFUL gen_guards f gen_guards_essential Hf Hw))). Qed.
+(* the cond-chain pass, for a compiler that can lower what the pass negates (canon_of _ true) *)
+Theorem C07_if_else_pass_preserves : forall p, well_labelled p ->
+  well_labelled (ifelse_pass gen_negcmp gen_guards p) /\
+  canon_of gen_negcmp true (ifelse_pass gen_negcmp gen_guards p) = canon_of gen_negcmp true p.
+Proof. exact ifelse_pass_gen. Qed.
 
-(* "never moves a label that something else still jumps to" *)
-Theorem C07_referenced_labels_keep_position_and_time_partial : forall f, is_flat f = true -> well_labelled f ->
-  let s := structure_with gen_negcmp gen_guards [PLoop; PBreak; PUnused] f in
-  forall l, In l (refs s) -> lookup (lenv st0 s) l = lookup (lenv st0 f) l.
-Proof. exact (fun f Hf Hw => proj2 (proj2 (structure_canon_partial gen_negcmp FAITHFUL gen_guards f gen_guards_essential Hf Hw))). Qed.
-
-(* the source still runs the passes in the order the composition theorem is about *)
+(* tie 1 side conditions *)
 Theorem C07_pass_order : gen_pass_order = [PLoop; PIfElse; PBreak; PUnused].
 Proof. exact gen_pass_order_ok. Qed.
-
 Theorem C07_negate_comparison_involutive : forall op op', gen_negcmp op = Some op' -> gen_negcmp op' = Some op.
 Proof. exact gen_negcmp_involutive. Qed.
+Theorem C07_essential_guards_present : essential_guards gen_guards = true.
+Proof. exact gen_guards_essential. Qed.
 
-Print Assumptions C07_loop_pass_preserves.
-Print Assumptions C07_break_pass_preserves.
-Print Assumptions C07_unused_labels_pass_preserves.
-Print Assumptions C07_structure_canon_partial.
+(* non-vacuity: a stream with a do-while loop, an if/else chain, a break, an explicit-time jump and a dropped
+   label satisfies the hypotheses and is really restructured *)
+Example C07_nonvacuous :
+  is_flat example_stream = true /\ well_labelled example_stream /\ no_cnt_chain (structure example_stream) = true /\
+  structure example_stream = example_structured.
+Proof. exact example_ok. Qed.
+
+Print Assumptions C07_structure_canon.
+Print Assumptions C07_count_jump_negation_refuted.
+Print Assumptions C07_referenced_labels_keep_position_and_time.
